@@ -8,7 +8,8 @@ import operator
 import warnings
 import numpy as np
 from .common import import_repo, length_vectors
-from .raggedutil import (dtclass, empty_class, alphabet, cells, flat, mk, seq_eq, tolist, ragged_lengths, short)
+from .raggedutil import (dtclass, alphabet, cells, flat, mk, seq_eq, tolist, ragged_lengths, short, Unsupported,
+                         nonempty_variant, rows_class, refine)
 
 PROPERTY = "C04"
 DTYPES = ["bool", "int8", "int16", "int32", "int64", "uint8", "float32", "float64"]
@@ -200,14 +201,18 @@ def _sig_class(case):
     if k == "unary":
         return f"unary:{dtclass(case['dt1'])}"
     other = case["ot"] if k == "pyscalar" else dtclass(case["ot"])
-    s = f"{k}:{case.get('side', 'R')}:{dtclass(case['dt1'])}x{other}"
-    if k == "column":
-        s += ":" + empty_class(case["lengths"])
-    return s
+    return f"{k}:{dtclass(case['dt1'])}x{other}"
+
+
+AXES = [
+    ("side", "side", lambda case: ["L" if case.get("side") == "R" else "R"],
+     lambda s: None if s is None else {"R": "ragged-left", "L": "ragged-right"}[s]),
+    ("rows", "lengths", lambda case: [nonempty_variant(case["lengths"])], rows_class),
+]
 
 
 def _desc(case, rows1, other):
-    return (f"{'operator' if case['via'] == 'op' else 'np.'}{case['uf']} on RaggedArray(rows={rows1}, dtype={case['dt1']})"
+    return (f"{'Python operator for ' if case['via'] == 'op' else 'np.'}{case['uf']} on RaggedArray(rows={rows1}, dtype={case['dt1']})"
             + (f" with {case['kind']} operand {short(other)} on the {'right' if case.get('side', 'R') == 'R' else 'left'}"
                if case["kind"] != "unary" else ""))
 
@@ -216,7 +221,14 @@ def check(case):
     import_repo()
     with warnings.catch_warnings(), np.errstate(all="ignore"):
         warnings.simplefilter("ignore")
-        return _check(case)
+        try:
+            v = _check(case)
+        except Unsupported:
+            return None
+        if v is None or "sig" in v:
+            return v
+        axes = AXES if case["kind"] not in ("unary", "ragged") else AXES[1:]
+        return refine(case, v, _check, axes)
 
 
 def _check(case):
@@ -264,42 +276,42 @@ def _check(case):
         exp_flat = call(np.array(flat(rows1), dtype=dt1), other_flat)
         exp_rows = [call(np.array(rows1[i], dtype=dt1), other_rows[i] if other_rows is not None else None) for i in range(n)]
     except (TypeError, ValueError, OverflowError, ZeroDivisionError):
-        return None
+        raise Unsupported()
     exp_dtype = np.asarray(exp_flat).dtype
     desc = _desc(case, rows1, other if kind != "ragged" else rows2)
     try:
         res = call(ra, other)
     except Exception as e:
         return {"msg": f"{desc}: expected rows {[r.tolist() for r in exp_rows]} ({exp_dtype}), raised {type(e).__name__}: {e}",
-                "sig": f"raised:{type(e).__name__}:{_sig_class(case)}"}
+                "what": f"raised:{type(e).__name__}:{_sig_class(case)}"}
     if not isinstance(res, RaggedArray):
         return {"msg": f"{desc}: result is {type(res).__name__} {short(res)}, not a RaggedArray",
-                "sig": f"not-ragged:{_sig_class(case)}"}
+                "what": f"not-ragged:{_sig_class(case)}"}
     got_rows = tolist(res)
     exp_list = [np.asarray(r).tolist() for r in exp_rows]
     if ragged_lengths(res) != lengths or [len(r) for r in got_rows] != lengths:
         return {"msg": f"{desc}: row lengths {ragged_lengths(res)} / rows {got_rows}, expected lengths {lengths}",
-                "sig": f"wrong-lengths:{_sig_class(case)}"}
+                "what": f"wrong-lengths:{_sig_class(case)}"}
     rtol = 1e-6 if (uf == "power" and exp_dtype.kind == "f") else 0.0
     if res.dtype != exp_dtype:
-        what = "wrong-dtype" if seq_eq(got_rows, exp_list, rtol) else "wrong-dtype-and-value"
+        also = "" if seq_eq(got_rows, exp_list, rtol) else " (the values differ too)"
         return {"msg": f"{desc}: result dtype {res.dtype} rows {short(got_rows)}; numpy gives dtype {exp_dtype} rows "
-                       f"{short(exp_list)}",
-                "sig": f"{what}:{_sig_class(case)}"}
+                       f"{short(exp_list)}{also}",
+                "what": f"wrong-dtype:{_sig_class(case)}"}
     if not seq_eq(got_rows, exp_list, rtol):
         return {"msg": f"{desc}: rows {short(got_rows)}, numpy row by row gives {short(exp_list)}",
-                "sig": f"wrong-value:{_sig_class(case)}"}
+                "what": f"wrong-value:{_sig_class(case)}"}
     # operands not modified
     if not seq_eq(tolist(ra), [np.array(r, dtype=dt1).tolist() for r in rows1]):
-        return {"msg": f"{desc}: the ragged operand was modified to {tolist(ra)}", "sig": f"modified:{_sig_class(case)}"}
+        return {"msg": f"{desc}: the ragged operand was modified to {tolist(ra)}", "what": f"modified:{_sig_class(case)}"}
     if ra.dtype != np.dtype(dt1) or ragged_lengths(ra) != lengths:
         return {"msg": f"{desc}: the ragged operand changed dtype/lengths to {ra.dtype}/{ragged_lengths(ra)}",
-                "sig": f"modified:{_sig_class(case)}"}
+                "what": f"modified:{_sig_class(case)}"}
     if kind == "ragged":
         if not seq_eq(tolist(other), [r.tolist() for r in other_rows]) or other.dtype != np.dtype(case["ot"]):
             return {"msg": f"{desc}: the second ragged operand was modified to {tolist(other)}",
-                    "sig": f"modified:{_sig_class(case)}"}
+                    "what": f"modified:{_sig_class(case)}"}
     elif kind in ("column", "arr0d"):
         if other.dtype != other_copy.dtype or other.shape != other_copy.shape or not seq_eq(other.tolist(), other_copy.tolist()):
-            return {"msg": f"{desc}: the array operand was modified to {other.tolist()}", "sig": f"modified:{_sig_class(case)}"}
+            return {"msg": f"{desc}: the array operand was modified to {other.tolist()}", "what": f"modified:{_sig_class(case)}"}
     return None
